@@ -66,6 +66,16 @@ inductive Exn where
   | foreign
 deriving Repr, DecidableEq
 
+/-- C++ handler matching for the three classes of thrown objects: does `catch (const ty&)` take `x`?
+(`mp::Error` derives from `fmt::FormatError`, a `std::runtime_error`; `...` takes everything.) -/
+def handlerCatches (ty : String) : Exn → Bool
+  | .mpError _ => ty == "mp::Error" || ty == "std::exception" || ty == "..."
+  | .stdExn => ty == "std::exception" || ty == "..."
+  | .foreign => ty == "..."
+
+/-- the first clause of a catch ladder that takes `x` (`none`: the exception leaves the try statement) -/
+def caughtBy (ladder : List String) (x : Exn) : Option String := ladder.find? (handlerCatches · x)
+
 /-- `EXIT_FAILURE` on the platform. -/
 def EXIT_FAILURE : Int := 1
 /-- `sol::FAILURE` -/
